@@ -83,7 +83,7 @@ def conformance_samples(vc, pairs, per_contract=None):
     if getattr(vc.I, 'native_cuts', None):
         return
     cands = [(ob, rec) for ob, rec in pairs if ob.kind in ('P', 'A', 'raises', 'frame') and rec.get('status') == VALID
-             and not str(ob.meta.get('path', '')).startswith('loop-')]
+             and not str(ob.meta.get('path', '')).startswith('loop-') and (ob.meta.get('clause') or ob.kind == 'frame')]
     rng.shuffle(cands)
     done = 0
     for ob, rec in cands:
